@@ -74,7 +74,7 @@ def copyv(v):
     return v
 
 class Frame:
-    __slots__ = ('fn', 'regs', 'blk', 'prev', 'ip', 'defers', 'free', 'result')
+    __slots__ = ('fn', 'regs', 'blk', 'prev', 'ip', 'defers', 'free', 'result', 'loops')
     def __init__(self, fn):
         self.fn = fn; self.regs = {}; self.blk = 0; self.prev = -1; self.ip = 0; self.defers = []; self.free = {}
 
@@ -106,6 +106,7 @@ class Engine:
         self.lit_tab = {}
         self.timeout_ms = timeout_ms
         self.sched_ifaces = ()
+        self.unwind = None
         self.panic_mode = 'ignore'  # 'obligation': implicit Go panics are violations
         self.go_mode = 'ignore'     # what a `go` statement does outside vGo: 'ignore' | 'spawn'
         self.known = []             # known-finding predicates for the running harness
@@ -776,6 +777,12 @@ class Engine:
             if res is not None:
                 kind = res[0]
                 if kind == 'jump':
+                    if self.unwind is not None and res[1] <= fr.blk:      # back edge: unwinding bound (stated per harness)
+                        c = fr.loops = getattr(fr, 'loops', None) or {}
+                        c[res[1]] = c.get(res[1], 0) + 1
+                        if c[res[1]] > self.unwind:
+                            self.stats['unwound'] = self.stats.get('unwound', 0) + 1
+                            raise PathEnd()
                     fr.prev = fr.blk; fr.blk = res[1]; fr.ip = 0
                 elif kind == 'return':
                     stack.pop()
